@@ -7,11 +7,13 @@
 //! exit 2: infrastructure problem (never a violation).
 
 mod checks;
+mod conc;
 mod gen;
 mod hooks;
 mod known;
 mod model;
 mod runner;
+mod sched;
 mod seq;
 mod spec;
 
@@ -30,13 +32,24 @@ fn run_check(id: &str, cfg: &RunCfg) -> Option<Report> {
     Some(match id {
         "C01" => checks::hist::run(cfg, &checks::hist::C01),
         "C02" => checks::hist::run(cfg, &checks::hist::C02),
+        "C03" => checks::concur::run(cfg, &checks::concur::C03),
         "C04" => checks::hist::run(cfg, &checks::hist::C04),
         "C04X" => checks::hist::run(cfg, &checks::hist::C04X),
         "C05" => checks::c05::run(cfg),
         "C06" => checks::hist::run(cfg, &checks::hist::C06),
         "C07" => checks::hist::run(cfg, &checks::hist::C07),
+        "C08" => checks::concur::run(cfg, &checks::concur::C08),
         "C09" => checks::c09::run(cfg),
-        "C15" => checks::hist::run(cfg, &checks::hist::C15),
+        "C12" => checks::concur::run(cfg, &checks::concur::C12),
+        "C13" => checks::concur::run(cfg, &checks::concur::C13),
+        "C14" => checks::concur::run_c14(cfg),
+        "C15" => {
+            let mut rep = checks::hist::run(cfg, &checks::hist::C15);
+            if !rep.failed() {
+                checks::concur::run_into(cfg, &checks::concur::C15C, &mut rep);
+            }
+            rep
+        }
         "C16" => checks::codec::run(cfg, false),
         "C17" => checks::codec::run(cfg, true),
         "C18" => checks::c18::run(cfg),
@@ -48,13 +61,24 @@ fn replay_check(id: &str, v: &serde_json::Value, cfg: &RunCfg) -> Option<Result<
     Some(match id {
         "C01" => checks::hist::replay(cfg, &checks::hist::C01, v),
         "C02" => checks::hist::replay(cfg, &checks::hist::C02, v),
+        "C03" => checks::concur::replay(cfg, &checks::concur::C03, v),
         "C04" => checks::hist::replay(cfg, &checks::hist::C04, v),
         "C04X" => checks::hist::replay(cfg, &checks::hist::C04X, v),
         "C05" => checks::c05::replay(v),
         "C06" => checks::hist::replay(cfg, &checks::hist::C06, v),
         "C07" => checks::hist::replay(cfg, &checks::hist::C07, v),
+        "C08" => checks::concur::replay(cfg, &checks::concur::C08, v),
         "C09" => checks::c09::replay(v),
-        "C15" => checks::hist::replay(cfg, &checks::hist::C15, v),
+        "C12" => checks::concur::replay(cfg, &checks::concur::C12, v),
+        "C13" => checks::concur::replay(cfg, &checks::concur::C13, v),
+        "C14" => checks::concur::replay(cfg, &checks::concur::C14L, v),
+        "C15" => {
+            if v["engine"] == "schedule" {
+                checks::concur::replay(cfg, &checks::concur::C15C, v)
+            } else {
+                checks::hist::replay(cfg, &checks::hist::C15, v)
+            }
+        }
         "C16" => checks::codec::replay(v, false),
         "C17" => checks::codec::replay(v, true),
         "C18" => checks::c18::replay(v),
@@ -83,6 +107,9 @@ fn main() {
             std::fs::write(format!("{dir}/{kf}.json"), serde_json::to_string_pretty(&v).unwrap()).unwrap();
             println!("wrote {dir}/{kf}.json");
         }
+        let v = serde_json::json!({"property": "C13", "engine": "schedule", "case": checks::concur::witness_kf_c13_1()});
+        std::fs::write(format!("{dir}/KF-C13-1.json"), serde_json::to_string_pretty(&v).unwrap()).unwrap();
+        println!("wrote {dir}/KF-C13-1.json");
         std::process::exit(0);
     }
     if args[2] == "--replay" {
